@@ -125,6 +125,12 @@ class Folder:
                 if r and r[0] == "value" and "." not in r[2]:
                     return self.module_value(r[1].name, r[2])
                 # class attribute, e.g. Channel.FRAME_HEADER / self.FRAME_HEADER handled by callers
+                # errno.<NAME>: platform constants of the standard library (read from this interpreter's errno table)
+                hd = d.split(".")
+                if len(hd) == 2 and mod.imports.get(hd[0]) == "errno" and hd[0] not in env:
+                    import errno as _errno
+                    if isinstance(getattr(_errno, hd[1], None), int):
+                        return getattr(_errno, hd[1])
             base = self._fold(n.value, mod, env)
             if isinstance(base, StructVal) and n.attr in ("size", "format"):
                 return getattr(base, n.attr)
@@ -256,6 +262,26 @@ class Folder:
                 return list(base.values())
             raise Unfoldable("items() on non-dict")
         callee = None
+        if fn == "dir" and "dir" not in env and len(args) == 1 and not n.keywords:
+            # dir(<class of the package>): names bound in the class bodies along the MRO plus what every object has
+            d_ = A.dotted(args[0])
+            c_ = self.repo.resolve_class(mod, d_) if d_ else None
+            if c_ is None:
+                raise Unfoldable("dir() of something that is not a class of the package")
+            names = set(_OBJECT_DIR) | {"__dict__", "__module__", "__weakref__"}
+            for k_ in self.repo.mro(c_):
+                for st in k_.node.body:
+                    if isinstance(st, (ast.FunctionDef, ast.ClassDef)):
+                        names.add(st.name)
+                    elif isinstance(st, (ast.Assign, ast.AnnAssign)):
+                        for t_ in (st.targets if isinstance(st, ast.Assign) else [st.target]):
+                            names |= {x.id for x in ast.walk(t_) if isinstance(x, ast.Name)}
+                        if isinstance(st, ast.Assign) and any(isinstance(t_, ast.Name) and t_.id == "__slots__" for t_ in st.targets):
+                            try:
+                                names |= set(self._fold(st.value, k_.module, {}))
+                            except Unfoldable:
+                                pass
+            return sorted(names)
         if fn is not None:
             if fn in env:
                 callee = env[fn]
@@ -270,6 +296,11 @@ class Folder:
         vals = [self._fold(a, mod, env) for a in args]
         kws = {k.arg: self._fold(k.value, mod, env) for k in n.keywords}
         return callee(vals, kws)
+
+
+_OBJECT_DIR = ("__class__", "__delattr__", "__dir__", "__doc__", "__eq__", "__format__", "__ge__", "__getattribute__", "__getstate__",
+               "__gt__", "__hash__", "__init__", "__init_subclass__", "__le__", "__lt__", "__ne__", "__new__", "__reduce__",
+               "__reduce_ex__", "__repr__", "__setattr__", "__sizeof__", "__str__", "__subclasshook__")   # dir(object), CPython 3
 
 
 class _DictItems(list):
